@@ -13,7 +13,8 @@
     * a variable that does not occur in the differentiated tensor yields zeros (`allow_unused` +
       `zeros_like`), so no error kind for "unused" exists any more; the behaviour of the pinned
       snapshot is kept as `unusedOld` / `gradOld` / `gradShapeOld` for the negative results;
-    * `grad` concatenates along the LAST axis (`torch.cat(dim=-1)`), for every batch rank;
+    * `grad` concatenates along the LAST axis (`torch.cat(dim=-1)`), for every batch rank; `jac` and the operators
+      built on it use the trailing axes, for every batch rank (`jacShape`);
     * `div` selects the output column with a running offset `var_dim + i`;
     * errors of the real code that remain: a `narrow`/index outside the tensor (`err:narrow`),
       shapes that cannot be multiplied/added (`err:shape`).
@@ -107,8 +108,9 @@ def convective (out field : List (Expr V)) (vars : List (VarT V)) : Except Strin
     .ok (J.map (fun r => sumE (List.zipWith mul r field)))
   else .error "shape"
 
-/-- `sym_grad`: `0.5 * (J + Jᵀ)`; needs a square Jacobian (the broadcasting corner cases with a
-    single row/column are not modelled: `err:shape`) -/
+/-- `sym_grad`: `0.5 * (J + Jᵀ)`.  Square Jacobian: the symmetric gradient.  Mirrored oddity: torch broadcasts
+    `J + Jᵀ` when the Jacobian has a single row (1×n: entry (i,j) = ½(J₀ⱼ + J₀ᵢ)) or a single column
+    (m×1: entry (i,j) = ½(Jᵢ₀ + Jⱼ₀)); every other non-square shape is rejected. -/
 def symGrad (out : List (Expr V)) (vars : List (VarT V)) : Except String (List (List (Expr V))) :=
   let J := jac out vars
   let m := J.length
@@ -117,7 +119,13 @@ def symGrad (out : List (Expr V)) (vars : List (VarT V)) : Except String (List (
       let a ← entry J i j
       let b ← entry J j i
       pure (mul (const (1/2)) (add a b))
-  else .error "shape"
+  else match J with
+    | [r] => .ok (r.map fun ri => r.map fun rj => mul (const (1/2)) (add rj ri))
+    | _ =>
+      if J.all (fun r => r.length = 1) then
+        let c := J.flatten
+        .ok (c.map fun ci => c.map fun cj => mul (const (1/2)) (add ci cj))
+      else .error "shape"
 
 /-- `matrix_div`: the divergence of every matrix row -/
 def matrixDiv (out : List (List (Expr V))) (vars : List (VarT V)) : Except String (List (Expr V)) := do
@@ -133,6 +141,9 @@ def partialD (out : List (Expr V)) : List (VarT V) → List (Expr V)
 
 /-- result shape of `grad` on a batch of shape `batch ++ [d_k]` per variable: last-axis concatenation -/
 def gradShape (batch : List Nat) (dims : List Nat) : List Nat := batch ++ [dims.sum]
+
+/-- result shape of `jac` (and of `sym_grad`) on a batch: batch axes, then components × coordinates -/
+def jacShape (batch : List Nat) (m : Nat) (dims : List Nat) : List Nat := batch ++ [m, dims.sum]
 
 /-! ### behaviour of the pinned snapshot (before the `fix:` commits), kept for the negative results -/
 
@@ -187,6 +198,15 @@ def gradShapeOld (batch : List Nat) (dims : List Nat) : Except String (List Nat)
   | [b], ds => .ok [b, ds.sum]                         -- rank-2 tensors: hstack = last axis
   | b0 :: b1 :: bs, d :: ds =>
     if ds.all (· = d) then .ok (b0 :: (b1 * (ds.length + 1)) :: bs ++ [d]) else .error "shape"
+  | _, _ => .error "shape"
+
+/-- pinned `jac` indexed `model_out[:, i]`, joined along axis 1 and stacked at axis 1: with two batch axes `(a, b)` it
+    looped over `b` "components" and returned `(a, b, b·k, d)` (all variable dimensions `d` must agree) -/
+def jacShapeOld (batch : List Nat) (m : Nat) (dims : List Nat) : Except String (List Nat) :=
+  match batch, dims with
+  | [b], ds => .ok [b, m, ds.sum]
+  | b0 :: b1 :: bs, d :: ds =>
+    if ds.all (· = d) then .ok (b0 :: b1 :: (b1 * (ds.length + 1)) :: bs ++ [d]) else .error "shape"
   | _, _ => .error "shape"
 
 /-! ### the batch-level forms the code literally executes -/
